@@ -3,6 +3,7 @@ import Uom.Model.Coef
 import Uom.Gen.Table
 import Uom.Gen.Names
 import Uom.Gen.Certs
+import Uom.Proofs.BodyEq.UnitsEnum
 /-!
 # C05 — the SI unit tables are mutually coherent and anchored
 
@@ -171,5 +172,35 @@ def floatCoefClose32 (u : UnitDecl) : Bool :=
 
 theorem float_coef_close_f32 : (Gen.table.all fun q => q.units.all floatCoefClose32) = true := by
   decide +kernel
+
+/-! ### tie to the source: the registry's label methods regenerated from /repo/src/quantity.rs on this run
+
+"the run-time unit registry of each quantity lists exactly the declared units with the same labels": `units()`
+yields the variants of `Units`, and `Units::abbreviation / singular / plural` answer through a `match` with one arm
+per declared unit.  For **every** list of declared units with pairwise distinct identifiers (rustc rejects an enum
+with two variants of one name, E0428) and every position `i`: the method applied to the `i`-th variant returns what
+the `i`-th unit's own `Unit` impl returns — never a neighbour's label, never another flavour. -/
+section SourceTieRx
+open Uom.Rx Uom.Gen.RxBody Uom.BodyEq.UnitsEnum
+
+theorem src_units_enum_labels (names : List Bytes) (abbr sing plur : Nat → Bytes) (hnd : names.Nodup)
+    (i : Nat) (hi : i < names.length) :
+    run (envUnits names abbr sing plur) quantity_inherent_Units_abbreviation [variant names i] =
+      (.val (.str (abbr i)), []) ∧
+    run (envUnits names abbr sing plur) quantity_inherent_Units_singular [variant names i] =
+      (.val (.str (sing i)), []) ∧
+    run (envUnits names abbr sing plur) quantity_inherent_Units_plural [variant names i] =
+      (.val (.str (plur i)), []) :=
+  ⟨units_abbreviation_eq names abbr sing plur hnd i hi, units_singular_eq names abbr sing plur hnd i hi,
+   units_plural_eq names abbr sing plur hnd i hi⟩
+
+/-- the three `Unit` methods are three different functions of the environment (so the statement above can tell a
+    swapped flavour) -/
+theorem src_unit_methods_distinct :
+    c_unit_as_system_Unit_abbreviation ≠ c_unit_as_system_Unit_singular ∧
+    c_unit_as_system_Unit_abbreviation ≠ c_unit_as_system_Unit_plural ∧
+    c_unit_as_system_Unit_singular ≠ c_unit_as_system_Unit_plural := three_methods_distinct
+
+end SourceTieRx
 
 end Uom.C05
